@@ -21,9 +21,11 @@ package handler
 //   view = <status>/<k:v;…|->/<body|->      (X-V<k> headers of the response as the client sees it)
 
 import (
+	"bufio"
 	"bytes"
 	"context"
 	"fmt"
+	"net"
 	"net/http"
 	"net/http/httptest"
 	"runtime"
@@ -400,6 +402,96 @@ func c04Classify(d time.Time, ok, hasParent bool, pd, t0, t1 time.Time, dur time
 	}
 }
 
+// c04HijackRec is a real writer that can be hijacked (as net/http's response): it counts the hand-overs.
+type c04HijackRec struct {
+	*httptest.ResponseRecorder
+	n int
+}
+
+func (h *c04HijackRec) Hijack() (net.Conn, *bufio.ReadWriter, error) {
+	h.n++
+	a, b := net.Pipe()
+	b.Close()
+	return a, bufio.NewReadWriter(bufio.NewReader(a), bufio.NewWriter(a)), nil
+}
+
+// c04Hijack: hij <sup|nosup> <kind> <before|after>: the handler calls Hijack before / after the timeout branch has run.
+func c04Hijack(op []string) string {
+	sup, kind, when := op[1] == "sup", op[2], op[3]
+	parent := newC04Ctx()
+	gate := make(chan struct{})
+	res := make(chan string, 1)
+	inner := http.HandlerFunc(func(w http.ResponseWriter, r *http.Request) {
+		<-gate
+		hj, ok := w.(http.Hijacker)
+		if !ok {
+			res <- "nohijacker"
+			return
+		}
+		conn, _, err := hj.Hijack()
+		switch {
+		case err == nil:
+			conn.Close()
+			res <- "ok"
+		case err == http.ErrHandlerTimeout:
+			res <- "refused"
+		case strings.Contains(err.Error(), "doesn't support hijacking"):
+			res <- "unsupported"
+		default:
+			res <- "err?" + strings.ReplaceAll(err.Error(), " ", "_")
+		}
+		<-gate
+	})
+	th := TimeoutHandler(time.Hour)(inner)
+	rec := httptest.NewRecorder()
+	var w http.ResponseWriter = rec
+	hr := &c04HijackRec{ResponseRecorder: rec}
+	if sup {
+		w = hr
+	}
+	sdone := make(chan string, 1)
+	go func() {
+		defer func() {
+			if p := recover(); p != nil {
+				sdone <- c04PanicTok(p)
+				return
+			}
+			sdone <- "done"
+		}()
+		th.ServeHTTP(w, c04Request("plain", parent))
+	}()
+	fire := func() {
+		if kind == "cancel" {
+			parent.fire(context.Canceled)
+		} else {
+			parent.fire(context.DeadlineExceeded)
+		}
+	}
+	var out string
+	if when == "before" {
+		gate <- struct{}{}
+		out = <-res
+		fire()
+		c04WaitS(sdone, c04StuckBound(), "stuck")
+		gate <- struct{}{}
+	} else {
+		fire()
+		if s, _ := c04WaitS(sdone, c04StuckBound(), "stuck"); s != "done" {
+			out = "sret:" + s
+		}
+		gate <- struct{}{}
+		r := <-res
+		if out == "" {
+			out = r
+		}
+		gate <- struct{}{}
+	}
+	if (out == "ok") != (hr.n == 1) {
+		out += "?handovers:" + strconv.Itoa(hr.n)
+	}
+	return "hijack=" + out
+}
+
 func c04Script(r *verifh.Rng, flush bool) []string {
 	n := r.Pick(0, 1, 2, 3, 3, 4, 5, 6)
 	var acts []string
@@ -529,6 +621,16 @@ func c04Gen(r *verifh.Rng) []verifh.Section {
 		}
 	}
 	secs = append(secs, verifh.Section{Cfg: "wrapper=rest mode=deadline", Ops: ops})
+	// Hijack before / after the timeout, on a real writer that can / cannot be hijacked
+	ops = nil
+	for _, sup := range []string{"sup", "nosup"} {
+		for _, kind := range []string{"deadline", "cancel"} {
+			for _, when := range []string{"before", "after"} {
+				ops = append(ops, fmt.Sprintf("hij %s %s %s", sup, kind, when))
+			}
+		}
+	}
+	secs = append(secs, verifh.Section{Cfg: "wrapper=rest mode=hijack", Ops: ops})
 	return secs
 }
 
@@ -543,6 +645,8 @@ func TestVerifC04Rest(t *testing.T) {
 				return c04Race(op)
 			case "dl":
 				return c04Deadline(op)
+			case "hij":
+				return c04Hijack(op)
 			}
 			return "bad-op"
 		}
